@@ -68,7 +68,9 @@ def _scen(a, b):
 
 def judge(case):
     G = load()
-    a, b = case["a"], case["b"]
+    a, b, pre = C.effective(case)
+    if a is None:
+        return core.not_admitted("alias-reread")
     d2 = K.dist2(a, b)
     K.inter(a, b)                      # records the incidence margins of the pair
     if not core.admitted():
@@ -84,7 +86,7 @@ def judge(case):
     sc = _scen(a, b)
     if sc:
         mu.cell("scen:" + sc)
-    x, y = C.lift_pair(case)
+    x, y = pre or C.lift_pair(case)
     forms = [("distance(a,b)", G.distance, x, y), ("distance(b,a)", G.distance, y, x)]
     if ka in ("L", "PL"):
         forms.append(("a.distance(b)", lambda p, q: p.distance(q), x, y))
